@@ -54,7 +54,7 @@ const (
 )
 
 var (
-	validIn    = []string{"path", "query", "header", "body", "form"}
+	validIn    = []string{"path", "query", "header", "body"}
 	basicTypes = []string{TypeInteger, TypeNumber, TypeString, TypeBoolean, TypeBool, TypeArray}
 )
 
@@ -112,7 +112,10 @@ func (s *setOpParams) Parse(lines []string) error {
 			current.Name = value
 		case ParamInKey:
 			v := strings.ToLower(value)
-			if contains(validIn, v) {
+			if v == "formdata" || v == "form" {
+				// the location is spelled formData in a swagger document
+				current.In = "formData"
+			} else if contains(validIn, v) {
 				current.In = v
 			}
 		case ParamRequiredKey:
